@@ -11,7 +11,7 @@ META = {
     "level": "exploration",
     "rule": ("case = generated type descriptor (JSON); distinct by JSON; non-trivial when nesting "
              "depth >= 2 or it contains an extension type whose definition has a from-params bound"),
-    "required": ["monitor:type_bound", "monitor:reused-type", "monitor:wire-bound", "monitor:static-array-reject",
+    "required": ["monitor:type_bound", "monitor:reused-type", "monitor:bound-after-empty-resolve", "monitor:wire-bound", "monitor:static-array-reject",
                  "monitor:static-array-accept", "monitor:join", "feature:from-params",
                  "feature:bound-A", "feature:bound-C"],
     "reach": ["hugr.tys:Sum.type_bound", "hugr.tys:ExtType.type_bound", "hugr.tys:ExtType._to_opaque"],
@@ -65,6 +65,17 @@ def check_type(ctx, d, stratum="type"):
     ctx.count("monitor:wire-bound", max(1, len(eb)))
     if ob != eb:
         ctx.disc(None, "wire-bound", "opaque bounds in pre-order", eb, ob, stratum=stratum, case=d)
+    # a type that went through resolution against a registry that knows nothing is still the same type: its bound
+    # (reported and written) is the declared / computed one
+    from hugr.ext import ExtensionRegistry
+
+    ctx.count("monitor:bound-after-empty-resolve")
+    t2 = t.resolve(ExtensionRegistry())
+    if t2.type_bound().value != exp:
+        ctx.disc(None, "type_bound-after-resolve", d[0], exp, t2.type_bound().value, stratum=stratum, case=d)
+    ob2 = opaque_bounds(t2._to_serial_root().model_dump(mode="json"), [])
+    if ob2 != eb:
+        ctx.disc(None, "wire-bound-after-resolve", "opaque bounds in pre-order", eb, ob2, stratum=stratum, case=d)
     # containers over this element type
     from hugr.std.collections.array import Array
     from hugr.std.collections.list import List
